@@ -224,7 +224,7 @@ def decode_prefixes(chk, repo):
     where = f"{cach.relpath}:decode"
     doc = json.dumps({"__type__": "group", "url": "u", "path": "HH", "attrs": {"a": [1, 2.5, {"__type__": "tuple", "data": [1]}]}, "data": {}})
     cuts = sorted({0, 1, 2, 5, 12, 13, 14, 20, 27, len(doc) // 2, len(doc) - 3, len(doc) - 1})
-    chk.rule("C09-X7", "decode on the empty file and on proper prefixes of an index raises CachingError (a torn cache is no cache)", len(cuts))
+    chk.rule("C09-X7", "decode on the empty file and on proper prefixes of an index raises - a torn index never decodes to a value (that the error ends in the parse fallback is C09-X1)", len(cuts))
 
     def to_shape(v):
         if isinstance(v, dict):
@@ -269,5 +269,7 @@ def decode_prefixes(chk, repo):
         if cut == len(doc):
             chk.require(outcome == "group", "C09-X7", where, "the complete document decodes", f"the complete document gives {outcome}", key="decode:complete")
         else:
-            chk.require(outcome == "CachingError", "C09-X7", where, f"an index cut after {cut} of {len(doc)} characters raises CachingError",
-                        f"an index file cut after {cut} of {len(doc)} characters ({text[-12:]!r}) gives {outcome} instead of CachingError: a torn cache is not treated as 'no cache'", key=f"decode:prefix:{'empty' if cut == 0 else 'cut'}")
+            # which class is raised, and that open_image's fallback catches it on every call chain, is C09-X1's business (the handler
+            # may sit in decode, in read_cache or in open_image); here: a torn index never *decodes*
+            chk.require(outcome == "CachingError" or outcome.startswith("raises "), "C09-X7", where, f"an index cut after {cut} of {len(doc)} characters does not decode (raises)",
+                        f"an index file cut after {cut} of {len(doc)} characters ({text[-12:]!r}) {outcome} instead of raising: a torn cache is taken for a cache", key=f"decode:prefix:{'empty' if cut == 0 else 'cut'}")
